@@ -160,6 +160,16 @@ theorem trle_reads_fit {cs w h t cur : Nat} (hcs : 1 ≤ cs) (hcs4 : cs ≤ 4) (
     rw [Nat.div_one]; exact Nat.mul_le_mul (by omega) hh
   omega
 
+/-- trle.c reads every 3-byte CPIXEL with a 4-byte load (`*(CARDBPP*)pointer`, the byte after the
+pixel lands in the unused byte of the framebuffer cell).  The load never leaves `raw_buffer`: the
+pixel with index `i` of a raw tile (`i < w·h ≤ 256`), of a palette (`i < 127`) or the single pixel
+of a solid tile / RLE run (`i = 0`) starts at byte `3·i` and the buffer has at least `16·16·3·2`
+bytes (`min_buffer_size`). -/
+theorem trle_word_read_in_bounds {i cur : Nat} (hi : i < 256) : 3 * i + 4 ≤ trleRawBuf (.full 3) cur := by
+  have hb : 16 * 16 * 3 * 2 ≤ trleRawBuf (.full 3) cur := by
+    simp only [trleRawBuf, CPix.size]; omega
+  omega
+
 /-- a TRLE run is read at the start of `raw_buffer` (fixed code) and its 0xff chain takes at most
 `budget + 1` bytes -/
 theorem trleRunLen_consumes : ∀ (budget acc : Nat) (bs rest : Bytes) (len : Nat),
